@@ -286,11 +286,11 @@ func (nc *Context) handleFailure(event *firebolt.Event, err error) {
 			Err:   err,
 		}
 
-		// process just like a 'normal' node (an errorhandler node is validated not to have any children nor an errorhandler of its own)
-		nc.ErrorHandler.Ch <- firebolt.Event{
+		// process just like a 'normal' node (an errorhandler node is validated not to have any children nor an errorhandler of its own),
+		// including its discard_on_full_buffer setting
+		nc.deliverToChild(nc.ErrorHandler, []firebolt.Event{{
 			Payload: eventError,
 			Created: time.Now(),
-		}
-		metrics.Node().BufferedEvents.WithLabelValues(nc.ErrorHandler.Config.ID).Set(float64(len(nc.ErrorHandler.Ch)))
+		}})
 	}
 }
